@@ -256,6 +256,9 @@ def run(idx, rep, tier):
     rep.floor("buffers", 2)
     rep.floor("normalisation-floor", 1)
     rep.floor("projection", 1)
+    # ---- tolerance / iteration cap reach the factorisation from every entry point (wrappers and the algorithm object)
+    from sa.autorule import passthrough_in
+    passthrough_in(idx, rep, ("decompositions.arnoldi", ), ("Arnoldi", ), ("tol", "max_iters"), 8)
     rep.explanation = ("LOOP + sign/DEP provenance on arnoldi / arnoldi_fact / init_arnoldi / arnoldi_eigs: cap min(max_iters, n) with a counter from 0 tested by <; buffers "
                        "zero-initialised and sized by the requested cap; sub-diagonal entries are norms; the normalisation floor depends on the tolerance; modified Gram-Schmidt "
                        "conjugates the basis; consistent trimming in arnoldi_eigs.")
